@@ -88,6 +88,12 @@ const (
 	lfGtFloatLong   // f:>123456.789
 	lfRangeSpecialLo // f:[nan TO 5]  (a range bound that spells a non-finite float is a string)
 	lfRangeSpecialHi // f:[b TO inf]
+	lfListNested    // f:(a OR (b OR c))  (a value list whose parentheses nest to the right)
+	lfListLeftNested // f:((a OR b) OR c)
+	lfNumFieldRegexp // 5:/ab/  (a number in field position with a regexp value)
+	lfNumFieldWild  // 5:b*
+	lfFloatExp      // f:1e21 / f:0.00001  (floats whose shortest text is in exponent form)
+	lfRangeQuotedSpace // f:["b c" TO "d e"]  (string bounds containing a space)
 	lfEqHuge        // f:12345678901234567890  (an integer beyond int64: Parse keeps it as a float64)
 	lfRangeWildLo   // f:[b* TO c]  (a string bound that contains a wildcard character stays a string)
 	lfRangeWildHi   // f:[b TO c?]
@@ -96,7 +102,7 @@ const (
 
 var leafNames = []string{"bare", "eq-str", "eq-int", "bare-int", "gt", "ge", "lt", "le", "range-incl", "range-excl", "range-lo", "range-hi",
 	"range-str", "list", "wild", "regexp", "quoted", "float", "bare-wild", "", "range-excl-str", "range-str-lo", "range-str-hi", "range-all",
-	"range-excl-lo", "range-excl-hi", "range-float", "range-float-excl", "list-int", "wild-mid", "regexp-short", "special-float", "range-str-comma", "eq-special", "empty-quoted", "bare-quoted-wild", "wild-field", "quoted-digits", "range-mixed", "quoted-nasty", "regexp-nasty", "range-big", "eq-big", "non-ascii", "range-whole-float", "quoted-wild", "quoted-regexp", "float-whole", "wild-esc", "wild-esc-wild", "wild-underscore", "wild-punct", "list-mixed", "regexp-backslash", "wild-esc-tail", "non-ascii-3", "wild-run", "float-long", "gt-float-long", "range-special-lo", "range-special-hi", "eq-huge", "range-wild-lo", "range-wild-hi"}
+	"range-excl-lo", "range-excl-hi", "range-float", "range-float-excl", "list-int", "wild-mid", "regexp-short", "special-float", "range-str-comma", "eq-special", "empty-quoted", "bare-quoted-wild", "wild-field", "quoted-digits", "range-mixed", "quoted-nasty", "regexp-nasty", "range-big", "eq-big", "non-ascii", "range-whole-float", "quoted-wild", "quoted-regexp", "float-whole", "wild-esc", "wild-esc-wild", "wild-underscore", "wild-punct", "list-mixed", "regexp-backslash", "wild-esc-tail", "non-ascii-3", "wild-run", "float-long", "gt-float-long", "range-special-lo", "range-special-hi", "list-nested", "list-left-nested", "num-field-regexp", "num-field-wild", "float-exp", "range-quoted-space", "eq-huge", "range-wild-lo", "range-wild-hi"}
 
 // concreteFields makes field names the fixed sequence p, q, r, ... (one per leaf) instead of
 // symbolic bytes; used where rows have to be looked up by name.
@@ -109,6 +115,7 @@ type leaf struct {
 	form   int
 	field  string
 	s1, s2 string // string payloads (symbolic bytes)
+	s3     string
 	d1, d2 string // digit strings as written
 	i1, i2 int    // their values
 }
@@ -278,6 +285,22 @@ func genLeaf(forms []int) *node {
 		lf.field = holeField()
 		lf.s1 = []string{"nan", "inf", "Infinity", "NaN"}[rtChoose("special", 4)]
 		lf.d1, lf.i1 = holeInt()
+	case lfListNested, lfListLeftNested:
+		lf.field, lf.s1, lf.s2 = holeField(), holeStr(), holeStr()
+		lf.s3 = holeStr()
+	case lfNumFieldRegexp:
+		lf.field = string([]byte{holeByte("digit", "123456789")})
+		lf.s1 = string([]byte{'/', holeByte("str", strRest), holeByte("re", strRest+".*"), '/'})
+	case lfNumFieldWild:
+		lf.field = string([]byte{holeByte("digit", "123456789")})
+		lf.s1 = string([]byte{holeByte("str", strFirst), holeByte("wc", "*?")})
+	case lfFloatExp:
+		lf.field = holeField()
+		lf.d1 = []string{"1e21", "0.00001", "3e25", "1e-7"}[rtChoose("expdec", 4)]
+	case lfRangeQuotedSpace:
+		lf.field = holeField()
+		lf.s1 = string([]byte{holeByte("str", strFirst), ' ', holeByte("str", strRest)})
+		lf.s2 = string([]byte{holeByte("str", strFirst), ' ', holeByte("str", strRest)})
 	case lfWildEsc:
 		lf.field = holeField()
 		lf.s1 = string([]byte{holeByte("str", strFirst), '\\', holeByte("escd", " :(\"+-"), holeByte("wc", "*?")})
@@ -429,6 +452,16 @@ func printLeaf(lf *leaf, o *printOpts) string {
 		return lf.field + ":(" + lf.s1 + sp(o) + kw("OR", o) + sp(o) + lf.s2 + ")"
 	case lfListMixed:
 		return lf.field + ":(" + lf.d1 + sp(o) + kw("OR", o) + sp(o) + "2.5)"
+	case lfListNested:
+		return lf.field + ":(" + lf.s1 + sp(o) + kw("OR", o) + sp(o) + "(" + lf.s2 + sp(o) + kw("OR", o) + sp(o) + lf.s3 + "))"
+	case lfListLeftNested:
+		return lf.field + ":((" + lf.s1 + sp(o) + kw("OR", o) + sp(o) + lf.s2 + ")" + sp(o) + kw("OR", o) + sp(o) + lf.s3 + ")"
+	case lfNumFieldRegexp, lfNumFieldWild:
+		return lf.field + ":" + lf.s1
+	case lfFloatExp:
+		return lf.field + ":" + lf.d1
+	case lfRangeQuotedSpace:
+		return lf.field + ":[\"" + lf.s1 + "\"" + sp(o) + kw("TO", o) + sp(o) + "\"" + lf.s2 + "\"]"
 	case lfWildEsc, lfWildEscWild, lfWildUnderscore, lfWildPunct, lfRegexpBackslash, lfWildEscTail, lfWildRun:
 		return lf.field + ":" + lf.s1
 	case lfNonASCII3:
@@ -574,6 +607,18 @@ func printNode(n *node, min int, o *printOpts) string {
 // ---------------------------------------------------------------------------------------------
 // matcher: parsed expression vs specification. The result is built without forking.
 
+func expDec(d string) float64 {
+	switch d {
+	case "1e21":
+		return 1e21
+	case "0.00001":
+		return 0.00001
+	case "3e25":
+		return 3e25
+	}
+	return 1e-7
+}
+
 func asExpr(v any) *expr.Expression {
 	e, _ := v.(*expr.Expression)
 	return e
@@ -706,6 +751,38 @@ func matchLeaf(e *expr.Expression, lf *leaf, df string) bool {
 		default:
 			return b.Inclusive && rtAnd(res, rtAnd(litString(b.Min, lf.s1), litString(b.Max, lf.s2)))
 		}
+	case lfListNested, lfListLeftNested:
+		if e.Op != expr.In {
+			return false
+		}
+		l3 := asExpr(e.Right)
+		if l3 == nil || l3.Op != expr.List {
+			return false
+		}
+		items3, ok3 := l3.Left.([]*expr.Expression)
+		if !ok3 || len(items3) != 3 {
+			return false
+		}
+		return rtAnd(litColumn(e.Left, lf.field), rtAnd(litString(items3[0], lf.s1), rtAnd(litString(items3[1], lf.s2), litString(items3[2], lf.s3))))
+	case lfRangeQuotedSpace:
+		if e.Op != expr.Range {
+			return false
+		}
+		bq, okq := e.Right.(*expr.RangeBoundary)
+		if !okq || bq == nil || !bq.Inclusive {
+			return false
+		}
+		return rtAnd(litColumn(e.Left, lf.field), rtAnd(litString(bq.Min, lf.s1), litString(bq.Max, lf.s2)))
+	case lfFloatExp:
+		if e.Op != expr.Equals || !litColumn(e.Left, lf.field) {
+			return false
+		}
+		rx := asExpr(e.Right)
+		if rx == nil || rx.Op != expr.Literal {
+			return false
+		}
+		fx, okx := rx.Left.(float64)
+		return okx && fx == expDec(lf.d1)
 	case lfList:
 		if e.Op != expr.In {
 			return false
